@@ -305,8 +305,10 @@ def units(tier, seed):
     nf = 2 if tier == 'quick' else 3
     for sk in skeletons(nf):
         modes = range(5) if sk.get('user') else range(4)
-        for mode in modes:
-            us.append(dict(id='b.%s.%s' % (sk['name'], MODES[mode]), kind='b', skeleton=sk['name'], nf=nf, fixed={'mode': mode},
+        heavy = tier != 'quick' and sk['name'] in ('join', 'findall')
+        for mode, m0 in [(mode, m0) for mode in modes for m0 in (range(6) if heavy else [None])]:
+            us.append(dict(id='b.%s.%s%s' % (sk['name'], MODES[mode], '' if m0 is None else '.m0=%d' % m0), kind='b', skeleton=sk['name'], nf=nf,
+                           fixed={'mode': mode} if m0 is None else {'mode': mode, 'm0': m0},
                            quick=(tier == 'quick'), ob='C03.b', timeout=300 if tier == 'quick' else 1500, weight=60, cap=8,
                            bounds='skeleton %s, <=%d facts, ended by %s at symbolic k<=3' % (sk['name'], nf, MODES[mode])))
     return us
